@@ -38,7 +38,17 @@ class Gen:
                 else:
                     bp, bq = self.block(depth + 1)
                 p += bp; q += bq
-            return ["@if " + cond] + p + ["@endif"], q
+            lines = ["@if " + cond] + p + ["@endif"]
+            plain = all(x.startswith(("@db", "@if", "@endif")) for x in lines)
+            shape = r.random()
+            if plain and shape < 0.3:
+                # the whole conditional on one line: nothing but a blank separates the condition from what follows it
+                return [" ".join(lines)], q
+            if plain and shape < 0.5:
+                # ... or inside a macro body (recorded without its line breaks)
+                m = self.fresh("cm")
+                return ["@macro %s, 0" % m] + lines + ["@endmacro", m], q
+            return lines, q
         if k < 0.56:
             self.kinds.add("each")
             var = self.fresh("VV")
